@@ -301,8 +301,11 @@ fn rules_tast(path: &str) -> Result<Value, String> {
                                         "replace": get("replace").map(list).unwrap_or_default()}));
                     } else if h.len() == 1 {
                         let (k, v) = h.iter().next().unwrap();
-                        let key = match k { Yaml::String(s) => s.clone(), Yaml::Integer(i) => format!("{}", i), _ => String::new() };
-                        out.push(json!({"char": key, "replace": list(v)}));
+                        match k {
+                            Yaml::String(s) => out.push(json!({"char": s, "replace": list(v)})),
+                            Yaml::Integer(i) => out.push(json!({"code": i, "replace": list(v)})),
+                            _ => (),
+                        }
                     }
                 }
             }
@@ -439,6 +442,40 @@ fn remember_prefix(mathml: &str) {
     }
 }
 
+/// what an editor does: take the MathML that set_mathml returned last (its ids included), edit it, and set it again.
+/// mode "append": new tokens (no ids) after the content; "prepend": before it; "wrap": the content becomes the child of a
+/// new element `extra`; "strip": every n-th id attribute (n = extra) is removed.  Returns the new canonical MathML.
+fn set_mathml_reusing_last(mode: &str, extra: &str) -> Result<Value, String> {
+    let last = LAST_MATHML.with(|m| m.borrow().clone());
+    let open_end = match last.find('>') { Some(i) => i + 1, None => return Err("HARNESS: no previous MathML".to_string()) };
+    let close = match last.rfind("</math>") { Some(i) => i, None => return Err("HARNESS: no previous MathML".to_string()) };
+    let (head, body, tail) = (&last[..open_end], &last[open_end..close], &last[close..]);
+    let edited = match mode {
+        "append" => format!("{}{}{}{}", head, body, extra, tail),
+        "prepend" => format!("{}{}{}{}", head, extra, body, tail),
+        "wrap" => format!("{}<{}>{}</{}>{}", head, extra, body, extra, tail),
+        "strip" => {
+            let n: usize = extra.parse().unwrap_or(2).max(1);
+            let mut out = String::new();
+            let mut rest = last.as_str();
+            let mut k = 0;
+            while let Some(i) = rest.find(" id='") {
+                let end = rest[i + 5..].find('\'').map(|e| i + 5 + e + 1).unwrap_or(rest.len());
+                k += 1;
+                out.push_str(&rest[..i]);
+                if k % n != 0 { out.push_str(&rest[i..end]); }
+                rest = &rest[end..];
+            }
+            out.push_str(rest);
+            out
+        }
+        _ => return Err(format!("HARNESS: unknown mode {}", mode)),
+    };
+    let r = set_mathml(edited.clone()).map_err(e2s)?;
+    remember_prefix(&r);
+    Ok(json!([edited, r]))
+}
+
 pub fn dispatch(op: &[Value]) -> Result<Value, String> {
     let name = s(op, 0);
     match name.as_str() {
@@ -454,6 +491,7 @@ pub fn dispatch(op: &[Value]) -> Result<Value, String> {
         "h_unicode_ast" => unicode_ast(&s(op, 1)),
         "h_rules_ast" => rules_ast(&s(op, 1)),
         "h_rules_tast" => rules_tast(&s(op, 1)),
+        "h_set_mathml_reusing_last" => set_mathml_reusing_last(&s(op, 1), &s(op, 2)),
         "v_trace_eval" => { libmathcat::verif::speech::trace_eval(b(op, 1)); Ok(Value::Null) }
         "v_take_eval_log" => Ok(json!(libmathcat::verif::speech::take_eval_log())),
         // file-system steps of a fault history (C14): they act on a private copy of Rules/ only
